@@ -734,6 +734,25 @@ for kind in ("bs", "ww", "lin", "lin-prev", "lin2", "lin2-prev", "naked", "ident
         for b, s in zip(list(d.ul().buffers()) + list(und2.buffers()), saved): b.copy_(s)
     for b, s in zip(list(d.ul().buffers()) + list(und2.buffers()), bufs):
         if not torch.equal(b, s): bad.append((kind, "buffer mutated"))
+# long horizons (hundreds of steps): shape, no trade at maturity, and the hedge equals an explicit step-by-step recursion
+for (Tn_, kind) in ((301, "lin-prev"), (401, "ww")):
+    und = BrownianStock(sigma=0.3, dt=0.01, cost=1e-3); d = EuropeanOption(und, strike=1.05, maturity=(Tn_ - 1) * 0.01); d.simulate(n_paths=2)
+    torch.manual_seed(5)
+    if kind == "ww":
+        model = pnn.WhalleyWilmott(d); feats = model.inputs()
+    else:
+        model = torch.nn.Sequential(torch.nn.Linear(4, 1), torch.nn.Tanh()); feats = ["log_moneyness", "time_to_maturity", "volatility", "prev_hedge"]
+    hedger = pnn.Hedger(model, feats)
+    with torch.no_grad():
+        out = hedger.compute_hedge(d)
+        s = und.spot; prev = torch.zeros(2, 1); ref = []
+        for t in range(Tn_ - 1):
+            x = torch.stack([(s[:, t] / 1.05).log(), torch.full((2,), (Tn_ - 1 - t) * 0.01), torch.full((2,), 0.3), prev[:, 0]], dim=-1)
+            prev = model(x); ref.append(prev[:, 0])
+        ref.append(ref[-1]); ref = torch.stack(ref, dim=-1)
+    if tuple(out.shape) != (2, 1, Tn_): bad.append((kind, "T=%d" % Tn_, "shape", tuple(out.shape)))
+    elif not torch.equal(out[..., -1], out[..., -2]): bad.append((kind, "T=%d" % Tn_, "trade at maturity"))
+    elif not torch.allclose(out[:, 0, :], ref, atol=1e-5): bad.append((kind, "T=%d" % Tn_, "differs from the step-by-step recursion", float((out[:, 0, :] - ref).abs().max())))
 result = {"got": [str(b) for b in bad], "ref": []}
 '''
 
@@ -741,7 +760,7 @@ result = {"got": [str(b) for b in bad], "ref": []}
 def _replay_hedger():
     r = real_exec(HEDGER_REPLAY, {}, timeout=600)
     ok = r.get('ok') and r['result']['got'] == []
-    return {'real': r, 'confirmed': not ok, 'note': 'replay: real hedgers (BS, WW, linear nets with/without prev_hedge, H=1,2) on simulated paths: shape, last column, perturb-the-future, buffers unchanged'}
+    return {'real': r, 'confirmed': not ok, 'note': 'replay: real hedgers (BS, WW, linear nets with/without prev_hedge, H=1,2) on simulated paths: shape, last column, perturb-the-future, buffers unchanged; horizons of 301 and 401 steps against an explicit step-by-step recursion'}
 
 
 # ------------------------------------------------------------------ the step-by-step loop of compute_hedge, cut by an invariant (all T)
